@@ -3,8 +3,9 @@
   the sources on every run):
     * the string overloads `UnitSystem::to_si / from_si (const std::string&, double)`
       (`parse` then `Dimension::convertRawToSi / convertSiToRaw`; offset dimensions included)
-    * which strings make `UnitSystem::parse` index `parts[1]` of a one-element vector
-      (`"X/"`, `"/"`: undefined behaviour in the real code — `parseUB`)
+    * the strings `"X/"`, `"/"`: `UnitSystem::parse` throws `std::invalid_argument` for them (model:
+      `parseChars = none`); before fix ee5075475 it indexed `parts[1]` of a one-element vector —
+      `parseUB` is that case, switched by a flag the translator reads off the source
     * `UnitSystem::uda_dim(UDAControl)` (the dimension a UDA gets when it is rebuilt from a
       restart file)
     * `FieldProps::getSIValue(keyword, x)` for a keyword with a `unit_string`
@@ -17,10 +18,16 @@ import OpmVerif.Gen.UnitsUse
 namespace OpmVerif.Units
 open OpmVerif.Gen.Units OpmVerif.Gen.UnitsUse
 
-/-- does `UnitSystem::parse` read `parts[1]` although `split_string(dimension, '/')` returned
-fewer than two pieces?  (exactly one `/`, and nothing after it) -/
-def parseUB (cs : List Char) : Bool :=
+/-- exactly one `/`, and nothing after it: `split_string(dimension, '/')` returns fewer than two pieces -/
+def trailingSlash (cs : List Char) : Bool :=
   cs.count '/' == 1 && decide ((split '/' cs).length < 2)
+
+/-- does `UnitSystem::parse` read `parts[1]` of a one-element vector (undefined behaviour)?  Only for
+a `trailingSlash` string, and only when the function does not refuse such strings first — whether it
+does is read off `UnitSystem.cpp` by the translator on every run
+(`Gen.UnitsUse.parseRejectsTrailingSlash`; `true` since fix ee5075475: `std::invalid_argument`). -/
+def parseUB (cs : List Char) : Bool :=
+  !parseRejectsTrailingSlash && trailingSlash cs
 
 section
 variable {α : Type} [Num α]
